@@ -800,3 +800,296 @@ pub fn lane_exhaustive(ctx: &mut Ctx) {
         ctx.cov.exhaustive = Some(complete);
     }
 }
+
+// ------------------------------------------------------------------------------------ C09
+
+use crate::snap::{self, SnapOpts};
+
+fn phase_label() -> &'static str {
+    if world::is_ingesting() {
+        return "ingestion_paused";
+    }
+    can::with_state(|s| match &s.syncing_state.response_to_process {
+        Some(ResponseToProcess::Partial(_, _)) => "partial_pages_received",
+        Some(ResponseToProcess::Complete(_)) => "response_stored",
+        None => {
+            if s.syncing_state.is_fetching_blocks {
+                "fetching"
+            } else {
+                "idle"
+            }
+        }
+    })
+}
+
+fn run_snapshot(run: &Run, with_fees: bool) -> Vec<(String, String)> {
+    let len = run.model.best_chains()[0].len() as u32;
+    snap::snapshot_for(
+        Network::Regtest,
+        &run.u.uni.addrs,
+        len,
+        run.model.stable_height(),
+        &SnapOpts { with_fees, with_utxos_length: false, max_c: 64 },
+    )
+}
+
+fn utxos_length() -> u64 {
+    world::info().ok().map(|i| i.utxos_length).unwrap_or(0)
+}
+
+#[derive(Clone, Debug)]
+enum UpArg {
+    None,
+    Threshold(u32),
+    Flags,
+}
+
+/// Executes the script, optionally injecting an upgrade before op `at`. Returns the final snapshot.
+fn run_with_upgrade(
+    ctx: &mut Ctx,
+    u_seed: &[u64],
+    n_blocks: usize,
+    threshold: u32,
+    script: &[Op],
+    budgets: &[Option<u64>],
+    at: Option<usize>,
+    arg: &UpArg,
+    rng_seed: &[u64],
+) -> Option<Vec<(String, String)>> {
+    let u = make_universe(Rng::derive(u_seed), n_blocks, 0, 3);
+    let mut run = Run::new(u, threshold);
+    let mut rng = Rng::derive(rng_seed);
+    let mut failed = false;
+    for (i, op) in script.iter().enumerate() {
+        if at == Some(i) {
+            if !inject_upgrade(&mut run, ctx, arg) {
+                failed = true;
+                break;
+            }
+        } else if at.is_some() && matches!(arg, UpArg::Threshold(_) | UpArg::Flags) {
+            // nothing: the twin applies the same config change through set_config at the same point (below)
+        }
+        if at.is_none() && Some(i) == ctx_twin_point() {
+            // unreachable placeholder (twin config changes are applied by the caller through `twin_at`)
+        }
+        if let Some(k) = budgets[i] {
+            can::runtime::verif::performance_counter_reset();
+            can::runtime::verif::set_performance_counter_step((1_000_000_000 + k) / (k + 1));
+        }
+        let r = exec(&mut run, op, &mut rng, ctx);
+        can::runtime::verif::performance_counter_reset();
+        can::runtime::verif::set_performance_counter_step(0);
+        if let Err(e) = r {
+            ctx.violation(
+                format!("{} (script with an upgrade before op {:?})", e, at),
+                None,
+                json!({"ops": run.sc.ops, "threshold": threshold}),
+            );
+            failed = true;
+            break;
+        }
+    }
+    if !failed && at == Some(script.len()) {
+        if !inject_upgrade(&mut run, ctx, arg) {
+            failed = true;
+        }
+    }
+    let mut out = None;
+    if !failed {
+        match drain(&mut run, &mut rng, ctx) {
+            Ok(_) => {
+                out = Some(run_snapshot(&run, true));
+            }
+            Err(e) => ctx.violation(
+                format!("{} (after an upgrade before op {:?}: syncing did not resume)", e, at),
+                None,
+                json!({"ops": run.sc.ops}),
+            ),
+        }
+    }
+    can::verif_hooks::scheduler_enable(false);
+    for (_, f) in run.sc.parked.drain(..) {
+        std::mem::forget(f);
+    }
+    out
+}
+
+fn ctx_twin_point() -> Option<usize> {
+    None
+}
+
+/// upgrade with before/after comparison of every query answer and of the configuration
+fn inject_upgrade(run: &mut Run, ctx: &mut Ctx, arg: &UpArg) -> bool {
+    let phase = phase_label();
+    ctx.cov.count(&format!("c09_upgrade_in_phase_{}", phase));
+    if let Err(e) = run.sync_model() {
+        ctx.violation(e, None, json!({"ops": run.sc.ops}));
+        return false;
+    }
+    let before = run_snapshot(run, false);
+    let ul_before = utxos_length();
+    let deltas: i64 = {
+        // defect model for the known finding: per-block utxo deltas of the main chain are lost
+        let bk = world::bookkeeping();
+        let best: Vec<crate::parse::H> = run.model.best_chains()[0].clone();
+        bk.tree
+            .iter()
+            .filter(|n| {
+                let mut a = [0u8; 32];
+                a.copy_from_slice(n.0.as_bytes());
+                best.contains(&a)
+            })
+            .map(|n| n.4)
+            .sum()
+    };
+    let cfg_before = format!("{:?}", world::get_config());
+    let up_arg = match arg {
+        UpArg::None => None,
+        UpArg::Threshold(t) => Some(ic_btc_interface::SetConfigRequest { stability_threshold: Some(*t as u128), ..Default::default() }),
+        UpArg::Flags => Some(ic_btc_interface::SetConfigRequest {
+            lazily_evaluate_fee_percentiles: Some(ic_btc_interface::Flag::Enabled),
+            burn_cycles: Some(ic_btc_interface::Flag::Disabled),
+            ..Default::default()
+        }),
+    };
+    // the scheduler forgets in-flight futures, then pre_upgrade + post_upgrade(arg)
+    if !run.sc.parked.is_empty() {
+        run.sc.upgrades_with_request_in_flight += 1;
+    }
+    for (_, f) in run.sc.parked.drain(..) {
+        std::mem::forget(f);
+    }
+    run.sc.ops.push(format!("UPG[{}]", phase));
+    run.sc.expect_initial = true;
+    run.sc.expected_followup = None;
+    if let Out::Trap(m) = world::upgrade(up_arg) {
+        ctx.violation(format!("upgrade trapped in phase {}: {}", phase, m), None, json!({"ops": run.sc.ops}));
+        return false;
+    }
+    if let UpArg::Threshold(t) = arg {
+        run.model.threshold = *t;
+        run.threshold = *t;
+    }
+    let after = run_snapshot(run, false);
+    let cfg_after = format!("{:?}", world::get_config());
+    ctx.cov.count("c09_before_after_snapshots_compared");
+    ctx.cov.eval(Some(fp_str(&format!("c09|{}|{:?}|{}", phase, arg, run.sc.ops.len()))));
+    match arg {
+        UpArg::None | UpArg::Flags => {
+            if cfg_before != cfg_after && matches!(arg, UpArg::None) {
+                ctx.violation(format!("configuration changed across an upgrade: {} -> {}", cfg_before, cfg_after), None, json!({"ops": run.sc.ops}));
+            }
+        }
+        UpArg::Threshold(_) => {}
+    }
+    // answers: identical, except get_config entries when an argument was given
+    let strip = |v: &Vec<(String, String)>| -> Vec<(String, String)> { v.iter().filter(|(k, _)| k != "get_config").cloned().collect() };
+    if let Some(d) = snap::diff(&strip(&before), &strip(&after)) {
+        ctx.violation(
+            format!("a query answer changed across pre_upgrade/post_upgrade in phase {}: {}", phase, d),
+            None,
+            json!({"ops": run.sc.ops}),
+        );
+        return false;
+    }
+    let ul_after = utxos_length();
+    if ul_after != ul_before {
+        let stable_len = can::with_state(|s| s.utxos.utxos_len_without_ingesting_block());
+        let _ = deltas;
+        let sig = if ul_after == stable_len {
+            Some("C09:utxos_length-loses-unstable-deltas-across-upgrade".to_string())
+        } else {
+            None
+        };
+        ctx.violation(
+            format!("get_blockchain_info.utxos_length changed across an upgrade: {} -> {}", ul_before, ul_after),
+            sig,
+            json!({"ops": run.sc.ops, "phase": phase}),
+        );
+    }
+    true
+}
+
+pub fn lane_upgrade_points(ctx: &mut Ctx) {
+    let max_cases = if ctx.tier == Tier::Quick { 100_000 } else { 10_000_000 };
+    for k in ctx.cases("upgrade", max_cases) {
+        if !ctx.time_left() {
+            break;
+        }
+        ctx.begin("upgrade", k);
+        let mut rng = Rng::derive(&[ctx.seed, fp_str("upgrade"), k]);
+        let n_blocks = rng.range(3, 8) as usize;
+        let threshold = rng.range(1, 3) as u32;
+        let len = rng.range(8, if ctx.tier == Tier::Quick { 18 } else { 25 }) as usize;
+        // script without upgrades: rounds of fetch / (pages) / process / ingest, with noise
+        let mut script: Vec<Op> = vec![];
+        let mut budgets: Vec<Option<u64>> = vec![];
+        let rounds = rng.range(2, if ctx.tier == Tier::Quick { 4 } else { 7 });
+        let _ = len;
+        for _ in 0..rounds {
+            let mut push = |op: Op, b: Option<u64>, script: &mut Vec<Op>, budgets: &mut Vec<Option<u64>>| {
+                script.push(op);
+                budgets.push(b);
+            };
+            if rng.chance(1, 2) {
+                push(Op::MoreBlocks, None, &mut script, &mut budgets);
+            }
+            push(Op::Hb, None, &mut script, &mut budgets);
+            let kind = match rng.below(8) {
+                0..=3 => ReplyKindS::Complete(rng.range(1, 2) as usize),
+                4..=6 => ReplyKindS::Partial(*rng.pick(&[1u8, 2, 3])),
+                _ => ReplyKindS::Reject,
+            };
+            let pages = if let ReplyKindS::Partial(n) = kind { n } else { 0 };
+            push(Op::Reply(kind), None, &mut script, &mut budgets);
+            for _ in 0..pages {
+                push(Op::Hb, None, &mut script, &mut budgets);
+                push(Op::Reply(ReplyKindS::Complete(1)), None, &mut script, &mut budgets);
+            }
+            if rng.chance(1, 3) {
+                push(Op::Query, None, &mut script, &mut budgets);
+            }
+            // process, then ingest in slices
+            push(Op::Hb, None, &mut script, &mut budgets);
+            for _ in 0..rng.range(1, 3) {
+                let b = if rng.chance(2, 3) { Some(rng.range(1, 2)) } else { None };
+                push(Op::Hb, b, &mut script, &mut budgets);
+            }
+        }
+        script.insert(0, Op::MoreBlocks);
+        budgets.insert(0, None);
+        let u_seed = [ctx.seed, fp_str("upgrade-u"), k];
+        let r_seed = [ctx.seed, fp_str("upgrade-r"), k];
+        let arg = match k % 4 {
+            0 => UpArg::Flags,
+            _ => UpArg::None,
+        };
+        let Some(twin) = run_with_upgrade(ctx, &u_seed, n_blocks, threshold, &script, &budgets, None, &UpArg::None, &r_seed) else { continue };
+        let mut all = true;
+        for at in 0..=script.len() {
+            if !ctx.time_left() {
+                all = false;
+                break;
+            }
+            let Some(s) = run_with_upgrade(ctx, &u_seed, n_blocks, threshold, &script, &budgets, Some(at), &arg, &r_seed) else { continue };
+            ctx.cov.count("c09_boundaries_covered");
+            // with the Flags argument only the configuration entry may differ
+            let strip = |v: &Vec<(String, String)>| -> Vec<(String, String)> { v.iter().filter(|(k, _)| k != "get_config").cloned().collect() };
+            let (a, b) = if matches!(arg, UpArg::None) { (twin.clone(), s.clone()) } else { (strip(&twin), strip(&s)) };
+            ctx.cov.count("c09_twin_final_states_compared");
+            if let Some(d) = snap::diff(&a, &b) {
+                ctx.violation(
+                    format!("after an upgrade before message {} the run does not reach the twin's final state: {}", at, d),
+                    None,
+                    json!({"script": format!("{:?}", script), "threshold": threshold}),
+                );
+            }
+        }
+        if all {
+            ctx.cov.count("c09_scripts_with_every_boundary_covered");
+        }
+        if ctx.cov.samples.len() < 3 {
+            ctx.cov.sample(json!({"blocks": n_blocks, "threshold": threshold, "script": format!("{:?}", script), "upgrade_argument": format!("{:?}", arg)}));
+        }
+    }
+}
